@@ -138,6 +138,10 @@ func genIndepStmt(t *rapid.T, mode int, equs [][2]string) SeqStmt {
 		}
 		return SeqStmt{text, "equ.use"}
 	case k == 1:
+		if rapid.IntRange(0, 5).Draw(t, "iresbbig") == 0 {
+			// large reservations, followed by whatever comes next (anything that buffers them must keep the order)
+			return SeqStmt{fmt.Sprintf("RESB %d", rapid.SampledFrom([]int{255, 256, 4095, 4096, 4097, 5000, 65536, 70000}).Draw(t, "iresbn")), "resb"}
+		}
 		return SeqStmt{fmt.Sprintf("RESB %d", rapid.IntRange(0, 40).Draw(t, "iresb")), "resb"}
 	case k == 2:
 		mn := rapid.SampledFrom([]string{"JMP", "CALL", "JE"}).Draw(t, "ifar")
